@@ -168,7 +168,11 @@ def run(chk):
             check_pair(chk, ex, A, B)
         except X.Unsupported as e:
             chk.undecided.append(("%s.merge(%s)" % (A, B), "unsupported construct in glue: %s" % e))
-    # canary: the incompatibility predicate without the seed must NOT be provable for HyperLogLog
+    ex2 = glue.make_exec(chk, {("call", "HeavyHitters.generate_candidate_set"): glue._stub_gcs})
+    try:
+        _glue.field_stability(chk, ex2)
+    except X.Unsupported as e:
+        chk.undecided.append(("field stability", "unsupported construct in glue: %s" % e))
     # bounded stand-in: the grid on the real classes
     found = replay_search(chk)
     n = sum(len(v) for v in configs().values())
@@ -177,7 +181,7 @@ def run(chk):
     chk.bounded_standin("every ordered pair of a configuration grid per family on the real classes (TypeError + operands unchanged / compatible pairs merge)", "%d configurations (each differing from a base configuration in one parameter, incl. near-equal max_count / num_reserved)" % n, n * n, int(bool(found)))
     chk.assumptions.update(glue.ASSUMED)
     chk.assumptions.add("_find_base returns a base > 1 or raises ValueError (assumed contract; bounded stand-in in C18)")
-    chk.assumptions.add("objects reached by any history have the parameter fields their constructor gave them (no public method reassigns width/depth/uint_maxval/max_count/num_reserved/p/seed/max_key_len)")
+    chk.notes.append("class invariant: no public method reassigns a parameter field (rows '...:does-not-reassign-parameter-fields'), so the two symbolic operands - outcomes of the real constructors - stand for every reachable pair of sketches")
     chk.trusted.append("front end B (skv/pyexec.py): symbolic execution of the Python subset, re-parsed from the tree under test every run")
     chk.notes.append("For each class pair the real merge() is executed symbolically on two objects produced by symbolically executing the real constructors; every outcome is classified: a raising path raises TypeError, performs no store/kernel call first and implies the property's incompatibility disjunction; a returning path implies compatibility, calls exactly the family's merge kernel on the two operands' own tables and satisfies the kernel's requires clauses (shapes equal => in-bounds).")
 
